@@ -137,7 +137,8 @@ class AnsiDecoder:
         _Style = Style
         text = Text()
         append = text.append
-        line = line.rsplit("\r", 1)[-1]
+        # what is visible after the last carriage return; a line END in "\r" (CR LF output) erases nothing
+        line = line.rstrip("\r").rsplit("\r", 1)[-1]
         for token in _ansi_tokenize(line):
             plain_text, sgr, osc = token
             if plain_text:
